@@ -41,7 +41,7 @@ CHECKS.update({
  "C02": dict(engine=E1, technique="explicit-state BFS over request histories on the real implementation; placement oracle on in-memory records and on every decoded file; bounded-exhaustive zone/instant enumeration for the timestamp",
    text="All histories up to the depth bound over two subscribers with up to two sessions each (create with/without usage, updates with one/several containers and rating groups, partial-record trigger, release with usage) and bulk histories that force record splitting; after every transition every session's record(s) must hold exactly the containers reported on it, in order and field by field, nothing foreign, with the identity fields of the create and the right closing cause; files are decoded with an independent reader and the real decoder. TimeStampToCdr is compared with an independent BCD encoder over all quarter-hour offsets -12:00..+14:00 plus odd ones x 12 boundary instants.",
    ref="6 C02", note=TB_E1),
- "C03": dict(engine=E1, technique="explicit-state BFS over bulk request histories on the real implementation; every file write parsed by an independent TS 32.297 reader + BER walker",
+ "C03": dict(engine=E1, technique="explicit-state BFS over bulk request histories on the real implementation; every file write parsed by an independent TS 32.297 reader + BER walker; plus stateless preemption-bounded schedule exploration of two half-record updates in flight at once",
    text="Histories of bulk updates (900/1300/2000/4000 containers), releases and creates carrying bulk usage, up to the depth bound; every write to the CDR file table during the last transition must parse (header/file lengths, CDR count, per-record length, exactly one complete BER CHF record per payload) and no record may exceed 65535 octets.",
    ref="6 C03", note=TB_E1),
 })
@@ -49,7 +49,7 @@ CHECKS.update({
  "C11": dict(engine=E1, technique="bounded-exhaustive enumeration of request bodies/path parameters (single + pairwise deviations) x explicit-state exploration of request / follow-up histories through the real router; wedge = driver thread blocked forever in virtual time",
    text="Every request body within the deviation bound of the well-formed create/update/release body and every recharging path-parameter shape is sent through the real gin router after a create (and after create+update) and followed by a well-formed update and create for the same subscriber; no 5xx, no escaping panic, 4xx carry a problem document, and the follow-up must complete (a held subscriber lock shows as a driver thread blocked forever, decided by the scheduler without wall-clock timeouts).",
    ref="6 C11", note=TB_E1),
- "C12": dict(engine=E1, technique="explicit-state BFS over request histories through the real router (incl. one-time events and consumers answering the notification with 400/404/500/200); contract oracle per request; before/after state comparison for rejected requests",
+ "C12": dict(engine=E1, technique="explicit-state BFS over request histories through the real router (incl. one-time events and consumers answering the notification with 400/404/500/200, and a consumer without notification URI); contract oracle per request; before/after state comparison for rejected requests",
    text="All histories up to the depth bound over two subscribers (up to two live sessions each, re-attach with another notification URI) mixing valid requests with requests naming an unknown subscriber or an unknown / stale / foreign session reference; status, Location, echoes, body and notifications are checked per request, and every rejected request must leave balances, reservations, records, files and database writes unchanged.",
    ref="6 C12", note=TB_E1),
 })
@@ -59,22 +59,22 @@ CHECKS.update({
    ref="6 C10", note=TB_E1),
 })
 CHECKS.update({
- "C13": dict(engine=E2, technique="exhaustive enumeration of service lists x registered routes x token kinds against the real router, with a state-comparison oracle for 'no processing'; plus stateless preemption-bounded schedule exploration (statement-level scheduling points in the authorisation code) of an authenticated and an unauthenticated request in flight together",
+ "C13": dict(engine=E2, technique="exhaustive enumeration of service lists x registered routes x token kinds against the real router, with a state-comparison oracle for 'no processing'; plus stateless preemption-bounded schedule exploration (statement-level scheduling points in the authorisation code) of an authenticated and an unauthenticated request in flight together; plus the real NRF registration run against an intercepted NRF for every shape of the NRF's OAuth2 declaration and of the configured NRF certificate, followed by a probe of every route",
    text="For each of the 16 ordered lists of distinct service names the router is built by the real NewServer; every (method, path) reported by Engine.Routes() is probed with 11 kinds of missing/malformed/wrongly signed tokens (twice each) against a world holding a live session: the answer must be 401 and balances, reservations, rating modes, records, database reads/writes, Diameter dials and notifications must be unchanged; a control probe with a valid NRF-signed token must not be 401.",
    ref="6 C13", note=TB_E1),
 })
 CHECKS.update({
- "C18": dict(engine=E1, technique="explicit-state BFS over request histories with an exact resource vector at quiescence, plus long deterministic runs in virtual time, plus deviation-bounded schedule exploration of slow peers (3 s / 6 s delays on every Diameter message delivery), of peers that never answer (orders of the connection reader and the requesting task) and of a peer that does not know the charging application",
+ "C18": dict(engine=E1, technique="explicit-state BFS over request histories with an exact resource vector at quiescence, plus long deterministic runs in virtual time, plus deviation-bounded schedule exploration of slow peers (3 s / 6 s delays on every Diameter message delivery), of peers that never answer (orders of the connection reader and the requesting task) and of a peer that does not know the charging application, of a peer whose answers arrive three times, and long runs across a peer outage; a worker watchdog reports worlds that stop for good in an operation on a channel the world does not own",
    text="All histories of updates/recharges over two subscribers up to the depth bound: open and half-closed (modelled) Diameter connections and goroutines of the world are counted exactly before and after every repeated request; long runs of N = 10/100 (thorough 1000) back-to-back and spaced updates must never exceed the resources the first three requests per subscriber needed, also after 60 s of virtual quiet.",
    ref="6 C18", note=TB_E1),
 })
 CHECKS.update({
- "C07": dict(engine=E1, technique="explicit-state BFS over credit-control request sequences against the real account-balance server (real go-diameter client/server state machines on the modelled network), reference model = map of balances",
+ "C07": dict(engine=E1, technique="explicit-state BFS over credit-control request sequences against the real account-balance server (real go-diameter client/server state machines on the modelled network), reference model = map of balances; free-running -race side pass with four peers on separate connections",
    text="All sequences up to the depth bound of CCRs (4 actions x request types x 11 boundary amounts up to 2^63-1 x 3 accounts + unknown subscriber + unknown rating group) from small and near-2^63 initial balances are sent over a real Diameter connection to the server started by abmf.OpenServer; stored balances, grant, final-unit indication and the echoed Session-Id/type/number are compared with a reference model after every request; absence of an answer is decided at quiescence.",
    ref="6 C07", note=TB_E1),
 })
 CHECKS.update({
- "C08": dict(engine=E2, technique="exhaustive enumeration of (stored unit-cost string x request sub-type x boundary value) against the real rating server over real go-diameter state machines on the modelled network, answer presence decided at quiescence; plus stateless preemption-bounded schedule exploration of two / three peers with requests in flight on separate connections",
+ "C08": dict(engine=E2, technique="exhaustive enumeration of (stored unit-cost string x request sub-type x boundary value) against the real rating server over real go-diameter state machines on the modelled network, answer presence decided at quiescence; plus stateless preemption-bounded schedule exploration of two / three peers with requests in flight on separate connections; plus every word up to a length bound (and long runs) over seven request kinds sent one after the other to one server; free-running -race side pass with four peers",
    text="Every unit-cost string of the alphabet (integers incl. 0 and 2^32-1, decimals, malformed text) x 4 sub-types x boundary consumed/quota values is sent over a real Diameter connection to the server started by rf.OpenServer; price / allowed units must be exact, the tariff must decode at the CHF (getUnitCost arithmetic) to the unit cost applied, every request must be answered and another subscriber must still be served afterwards. Schedule part: every placement of up to k PARK deviations at network, database and dispatcher operations while two or three peers each have one request in flight; every peer must receive the answer to its own request (Session-Id, own tariff, exact price).",
    ref="6 C08", note=TB_E1),
 })
@@ -84,12 +84,12 @@ CHECKS.update({
    ref="6 C17", note=TB_E2),
 })
 CHECKS.update({
- "C19": dict(engine=E1, technique="stateless deviation-bounded schedule exploration (controlled goroutine scheduler + virtual time) of the real CHF / go-diameter / peer servers: every placement of up to k answer-delay, answer-retransmission or timer-first deviations",
+ "C19": dict(engine=E1, technique="stateless deviation-bounded schedule exploration (controlled goroutine scheduler + virtual time) of the real CHF / go-diameter / peer servers: every placement of up to k answer-delay, answer-retransmission or timer-first deviations, over consecutive updates on one and on two rating groups with different tariffs",
    text="One subscriber sends consecutive updates with pairwise different requested amounts and then a fault-free probe; from the default schedule every placement of up to k deviations (quick: k=1 on three updates and k=2 on two updates; thorough: k=2 / k=3) is executed to completion, where a deviation delays the delivery of an answer beyond the 5 s client time-out at the client connection or at the client's dispatcher, makes a peer retransmit an application answer twice, or lets the clock run first. Each execution is checked for cross-talk (grant or reservation not matching the update's own request), requests blocked forever (decided by the scheduler in virtual time) and a failing probe.",
    ref="6 C19", note=TB_E1),
 })
 CHECKS.update({
- "C09": dict(engine=E1, technique="stateless preemption-bounded schedule exploration (controlled goroutine scheduler) of 2-3 concurrent requests on the real implementation, serializability oracle against the implementation's own serial executions",
+ "C09": dict(engine=E1, technique="stateless preemption-bounded schedule exploration (controlled goroutine scheduler) of 2-3 concurrent requests on the real implementation, serializability oracle against the implementation's own serial executions; scenarios with the CDR transfer enabled run against a modelled FTP connection that records two commands in flight at once",
    text="Fifteen scenarios (creates for a new / known / different / prefix-ambiguous SUPI and the same consumer, updates on the same / different sessions and subscribers, update vs release, update vs external credit + recharge notification, update vs notification alone, partial-record closures, three-request mixes): after a sequential set-up the requests run in concurrent driver threads; every placement of up to k PARK deviations at shared-state operations is executed to completion, then every acknowledged session is updated and released. No execution may block forever, panic or kill the process, and the final observation must equal that of some serial order of the same requests (reference = the implementation run serially in every permutation).",
    ref="6 C09", note=TB_E1 + "; unsynchronised plain-memory accesses between two gates are outside the cooperative scheduler's view: the 'no data race' clause is decided by a separate free-running race-detector pass over the same scenario bodies (a detector run, not an exhaustive search; see DESIGN.md 3.7)"),
 })
